@@ -38,7 +38,8 @@ using namespace amgcl;
 typedef backend::builtin<double> B;
 typedef backend::crs<double, ptrdiff_t, ptrdiff_t> M;
 
-static int md(long double v) { if (!(v > 0)) return -99999; double q = 1000.0 * std::log10((double)v); return q < -99999 ? -99999 : (q > 99999 ? 99999 : (int)std::lrint(q)); }
+static int md(long double v) { if (!std::isfinite((double)v)) return 99999;   /* NaN / Inf: never "small" */
+    if (!(v > 0)) return -99999; double q = 1000.0 * std::log10((double)v); return q < -99999 ? -99999 : (q > 99999 ? 99999 : (int)std::lrint(q)); }
 
 struct arrays { size_t n; std::vector<ptrdiff_t> ptr, col; std::vector<double> val; };
 static arrays to_arrays(const M &A, vr::rng *shuffle) {
@@ -82,6 +83,42 @@ void compare(const char *cls, const M &A, vr::rng &g, const Prm &prm, const char
     vr::emit(o.done());
 }
 
+// construct(sorted A) -> rebuild(M): M given with sorted rows vs. the same M with shuffled rows (allow_rebuild = true)
+template <class P, class Prm>
+void probe_rebuild(const arrays &a0, const arrays &m, Prm prm, std::vector<double> &out, std::string &exc) {
+    out.clear(); exc.clear();
+    try {
+        prm.allow_rebuild = true;
+        P p(std::tie(a0.n, a0.ptr, a0.col, a0.val), prm);
+        p.rebuild(std::tie(m.n, m.ptr, m.col, m.val));
+        for (int k = 0; k < 3; ++k) {
+            std::vector<double> f(m.n), x(m.n, 0.0);
+            for (size_t i = 0; i < m.n; ++i) f[i] = k == 0 ? 1.0 : (k == 1 ? ((i % 2) ? -1.0 : 2.0) : (double)((i * 37 + 11) % 13) - 6.0);
+            p.apply(f, x);
+            out.insert(out.end(), x.begin(), x.end());
+        }
+    } catch (const std::exception &e) { exc = e.what(); if (exc.empty()) exc = "exception"; }
+}
+template <class P, class Prm>
+void compare_rebuild(const char *cls, const M &A, vr::rng &g, const Prm &prm, int layout) {
+    // the new matrix: same pattern, diagonal increased (still an M-matrix)
+    M A2(A); for (size_t i = 0; i < A2.nrows; ++i) for (ptrdiff_t p = A2.ptr[i]; p < A2.ptr[i+1]; ++p) if (A2.col[p] == (ptrdiff_t)i) A2.val[p] += 1 + (i % 3);
+    arrays a0 = to_arrays(A, 0), s = to_arrays(A2, 0), u = to_arrays(A2, &g);
+    if (layout == 1) {                       // diagonal-first rows: the diagonal entry leads, the rest stays sorted
+        u = s;
+        for (size_t i = 0; i < u.n; ++i) for (ptrdiff_t p = u.ptr[i]; p < u.ptr[i+1]; ++p) if (u.col[p] == (ptrdiff_t)i) {
+            for (ptrdiff_t q = p; q > u.ptr[i]; --q) { std::swap(u.col[q], u.col[q-1]); std::swap(u.val[q], u.val[q-1]); } break; }
+    }
+    std::vector<double> xs, xu; std::string es, eu;
+    probe_rebuild<P>(a0, s, prm, xs, es); probe_rebuild<P>(a0, u, prm, xu, eu);
+    bool bitwise = xs.size() == xu.size() && (xs.empty() || std::memcmp(xs.data(), xu.data(), xs.size() * sizeof(double)) == 0);
+    long double dmax = 0, amax = 0; bool finite = true;
+    for (size_t i = 0; i < xs.size() && i < xu.size(); ++i) { if (!std::isfinite(xs[i]) || !std::isfinite(xu[i])) finite = false; dmax = std::max<long double>(dmax, std::fabs((long double)xs[i] - xu[i])); amax = std::max<long double>(amax, std::fabs((long double)xs[i])); }
+    vr::obj o; o.str("k", "precond").str("cls", cls).str("tag", layout == 1 ? "rebuild, diagonal-first rows" : "rebuild, shuffled rows").i("n", A.nrows).i("nnz", A.nnz).str("exc_sorted", es).str("exc_shuffled", eu);
+    o.b("bitwise", bitwise && finite).i("reldiff_md", (!finite || xs.size() != xu.size()) ? 99999 : (dmax == 0 ? -99999 : md(dmax / (amax > 0 ? amax : 1)))).i("nt", omp_get_max_threads());
+    vr::emit(o.done());
+}
+
 static void mode_precond(uint64_t seed, int reps) {
     vr::rng g(seed + 515);
     typedef amg<B, coarsening::smoothed_aggregation, relaxation::spai0> AMG1;
@@ -114,6 +151,18 @@ static void mode_precond(uint64_t seed, int reps) {
         compare<R_ilut>("as_preconditioner<ilut>", *A, g, R_ilut::params(), "mmatrix");
         compare<R_cheb>("as_preconditioner<chebyshev>", *A, g, R_cheb::params(), "mmatrix");
         compare< preconditioner::dummy<B> >("dummy", *A, g, preconditioner::dummy<B>::params(), "mmatrix");
+        // rebuild() with a new matrix whose rows are unsorted (order-sensitive and order-insensitive smoothers)
+        {   typedef amg<B, coarsening::smoothed_aggregation, relaxation::ilu0> RA1; typedef amg<B, coarsening::smoothed_aggregation, relaxation::iluk> RA2;
+            typedef amg<B, coarsening::aggregation, relaxation::gauss_seidel> RA3; typedef amg<B, coarsening::smoothed_aggregation, relaxation::spai0> RA4;
+            typedef amg<B, coarsening::ruge_stuben, relaxation::ilut> RA5;
+            for (int layout = 0; layout < 2; ++layout) {
+                RA1::params q1; q1.coarse_enough = 10; compare_rebuild<RA1>("amg<smoothed_aggregation,ilu0>::rebuild", *A, g, q1, layout);
+                RA2::params q2; q2.coarse_enough = 10; compare_rebuild<RA2>("amg<smoothed_aggregation,iluk>::rebuild", *A, g, q2, layout);
+                RA3::params q3; q3.coarse_enough = 10; compare_rebuild<RA3>("amg<aggregation,gauss_seidel>::rebuild", *A, g, q3, layout);
+                RA4::params q4; q4.coarse_enough = 10; compare_rebuild<RA4>("amg<smoothed_aggregation,spai0>::rebuild", *A, g, q4, layout);
+                RA5::params q5; q5.coarse_enough = 10; compare_rebuild<RA5>("amg<ruge_stuben,ilut>::rebuild", *A, g, q5, layout);
+            }
+        }
         // block-structured systems (2 unknowns per node, the first one is the pressure)
         auto Pn = vr::random_mmatrix(g, g.range(20, 80), 0.06, 3, 1);
         auto K = kron(*Pn, 2);
